@@ -72,6 +72,13 @@ def build_tables(dp):
             for k, ri in enumerate(r3.sample(decoys, min(len(decoys), dp["top_decoys"]))):
                 for ci in fcols:
                     t["rows"][ri][ci] = float(f"{9.0 + k + r3.random():.6f}")
+        if dp.get("int_feature"):
+            # an integer-typed feature (whole numbers in text, int64 in Parquet) whose magnitudes exceed 2**24: distinct
+            # values that single-precision arithmetic cannot tell apart
+            spec = dp["int_feature"]
+            ci = t["columns"].index(f"feat{spec['idx']}")
+            for row in t["rows"]:
+                row[ci] = int(spec["offset"] + round(spec["scale"] * row[ci]))
         if dp.get("nan_feature"):
             # a feature with a few missing values, placed after the tag column so that the tag's position among the
             # parsed features does not depend on whether it is dropped; a faithful parse always drops it
@@ -252,7 +259,7 @@ def parse_result_file(raw):
     return header, rows
 
 
-def fasta_for_tables(tables, seed, subset_p=0.2):
+def fasta_for_tables(tables, seed, subset_p=0.2, pep_per_prot=3):
     """FASTA entries (name, sequence) whose tryptic digest yields exactly the
     tables' peptides: targets in P###, decoys in decoy_P###; a few peptides are
     shared between two proteins, a few proteins are subsets / copies of others."""
@@ -266,7 +273,7 @@ def fasta_for_tables(tables, seed, subset_p=0.2):
     dp = sorted(set(dp))
     rng.shuffle(tp)
     rng.shuffle(dp)
-    n_prot = max(6, len(tp) // 3)
+    n_prot = max(6, len(tp) // pep_per_prot)
     prots = {f"P{i:03d}": [] for i in range(n_prot)}
     dprots = {f"decoy_P{i:03d}": [] for i in range(n_prot)}
     names = list(prots)
